@@ -20,7 +20,8 @@ RULE = ("programs: chains y <- op_i(y) with op_i drawn from {+c, *c, tanh (<=12 
         "(wrapped from outside) fires exactly once per recorded op; number of Python source lines executed by backward (sys.monitoring) for size "
         "2n <= 2.2 x that for n; every intermediate of an untracked loop except the last is dead (weak references "
         "after gc.collect()).  non-trivial: depth >= 1000 (above the interpreter's default recursion limit) or loop "
-        "length >= 1000; distinct by hash of the case")
+        "length >= 1000; distinct by hash of the case"
+        " Round 5 (thorough tier): CPU time of backward per recorded operation at n = 2e4 vs 3.2-4e5 (minimum ratio of up to three runs <= 3.5).")
 ASSUMPTIONS = ["'any size that fits in memory' is explored up to 5e4 sequential ops; beyond that only the linear "
                "call-count argument extrapolates",
                "cost is asserted on the deterministic number of Python source lines executed (sys.monitoring), never on "
